@@ -50,6 +50,13 @@ def run(rep, db, tier):
         return coro.pin(BoxV(EnvFuture('EngineInterface::get_state', respond)))
     ex.model(r'<dyn zksync_consensus_engine::(interface::)?EngineInterface as zksync_consensus_engine::(interface::)?EngineInterface>::get_state(::<.*>)?|zksync_consensus_engine::(interface::)?EngineInterface::get_state(::<.*>)?', if_get)
     ex.model(r'zksync_consensus_engine::metrics::.*|<.*vise::.*|vise::.*', lambda e, n, a: Opaque('metrics'))
+    # a manager that keeps bookkeeping of its own behind a std Mutex (uncontended here)
+    def _mutex(v):
+        while isinstance(v, Ref): v = v.get()
+        if isinstance(v, LazyStruct) or not isinstance(v, BoxV): raise Unmodelled(f'Mutex receiver {v!r}')
+        return v
+    ex.model(r'std::sync::Mutex::<.*>::(lock|try_lock)', lambda e, n, a: ok(_mutex(a[0])))
+    ex.model(r'<std::sync::MutexGuard<.*> as std::ops::Deref(Mut)?>::deref(_mut)?', lambda e, n, a: Ref(_mutex(a[0]).cell))
     mine = ex.user_models[n_before:]; del ex.user_models[n_before:]; ex.user_models[0:0] = mine; ex._um_cache = {}
     mk = Mk(db, ENG)
     try:
